@@ -34,6 +34,7 @@ def run(rep, tier, seed):
     res = tlc_ok(run_tlc("MC_Conv", CFG % (5 if q else 6, "ShapesA"), workers=16, timeout=1200), "MC_Conv")
     rep.add_tlc(res, "MC_Conv")
     rng = numpy.random.RandomState(seed % (2 ** 31))
+    last_of_size = {}
     for r in res.records:
         k = r["kind"]
         if k == "piv":
@@ -76,6 +77,32 @@ def run(rep, tier, seed):
                     rep.violation("UTPM.lu reassembly " + sig, {"piv": r["piv"], "err": float(abs(rec2.data - Au.data).max())})
                 if abs(numpy.triu(Ll.data, 1)).max() > 1e-12 or abs(numpy.tril(Ul.data, -1)).max() > 1e-12 or abs(Wl.data[1:]).max() > 0:
                     rep.violation("UTPM.lu structure " + sig, {"piv": r["piv"]})
+                # the packed form: LU.data = strict lower part of L plus U, pivots as lu_factor returns them
+                LUf, PIVf = UTPM.lu_factor(Au)
+                Lf = UTPM(numpy.tril(LUf.data, -1)); Lf.data[0] += numpy.eye(N)
+                Uf = UTPM(numpy.triu(LUf.data, 0))
+                rec3 = UTPM.dot(UTPM.piv2mat(PIVf), UTPM.dot(Lf, Uf))
+                if abs(rec3.data - Au.data).max() > 1e-9 * (1 + abs(Au.data).max()):
+                    rep.violation("UTPM.lu_factor reassembly " + sig, {"piv": r["piv"], "err": float(abs(rec3.data - Au.data).max())})
+                # two directions whose base matrices are pivoted differently (this pivot vector and the previous one of the same size)
+                prev = last_of_size.get(N)
+                last_of_size[N] = (piv.copy(), A.copy())
+                if prev is not None:
+                    data2 = data.copy(); data2[0, 1] = prev[1]
+                    A2 = UTPM(data2.copy())
+                    pv2, l2, u2 = UTPM.lu2(A2)
+                    for nm, rec_ in (("lu2", UTPM.dot(UTPM.piv2mat(pv2), UTPM.dot(l2, u2))),
+                                     ("lu", (lambda t: UTPM.dot(t[0], UTPM.dot(t[1], t[2])))(UTPM.lu(A2)))):
+                        if abs(rec_.data - A2.data).max() > 1e-9 * (1 + abs(A2.data).max()):
+                            rep.violation("UTPM.%s reassembly with different pivoting per direction %s" % (nm, sig), {"piv": [r["piv"], prev[0].tolist()]})
+                    for p_, want in ((0, piv), (1, prev[0])):
+                        if not numpy.array_equal(numpy.asarray(pv2.data[0, p_], dtype=int), want):
+                            rep.violation("UTPM.lu2 pivots per direction " + sig, {"direction": p_})
+                    dd = UTPM.det(A2)
+                    for p_ in range(2):
+                        ref = numpy.linalg.det(data2[0, p_])
+                        if abs(dd.data[0, p_] - ref) > 1e-9 * max(1, abs(ref)):
+                            rep.violation("UTPM.det with different pivoting per direction " + sig, {"direction": p_})
                 d = UTPM.det(Au)
                 if abs(d.data[0, 0] - numpy.linalg.det(A)) > 1e-9 * max(1, abs(numpy.linalg.det(A))):
                     rep.violation("UTPM.det " + sig, {"piv": r["piv"], "got": float(d.data[0, 0]), "expected": float(numpy.linalg.det(A))})
